@@ -87,6 +87,32 @@ CHECK_DEADLOCK FALSE
 """
 
 
+CFG_HOLDERS = """SPECIFICATION Spec
+CONSTANTS
+ Configs <- MCConfigs
+ Widths <- MCWidths
+ Heights <- MCHeights
+ Headers <- MCHeaders
+ RefX <- MCRefX
+ RefY <- MCRefY
+ Edits <- MCEdits
+ EditVia <- MCEditVia
+ MaxHist = %d
+INVARIANT WellFormedH
+INVARIANT HoldersSkyUnchanged
+INVARIANT CallerUnmoved
+INVARIANT HoldersViewsAgree
+INVARIANT HoldersSignTracksRows
+INVARIANT EnsureAlwaysNegativeH
+INVARIANT Emit
+PROPERTY Bystanders
+PROPERTY NamedOK
+PROPERTY Detached
+PROPERTY EditScope
+CHECK_DEADLOCK FALSE
+"""
+
+
 def det(cdelt, pc):
     return cdelt[0] * cdelt[1] * (pc[0] * pc[3] - pc[1] * pc[2])
 
@@ -146,6 +172,20 @@ def mc_module(kinds, widths, heights, hdrs, refx, refy, maxhist=0, recy=((0, 0),
     return tla.module("MCParity", ["Parity", "Json"], defs)
 
 
+def mc_holders(configs, widths, heights, hdrs, refx, refy, maxhist, edits=(), editvia=()):
+    """one WCS object held by several owners (spec/ParityHolders.tla): configs = [(kinds, share)]"""
+    defs = [("MCConfigs", tla.lit(set((tuple(k), tuple(sh)) for k, sh in configs))), ("MCWidths", tla.lit(set(widths))),
+            ("MCHeights", tla.lit(set(heights))), ("MCHeaders", tla.lit(set(hdrs))), ("MCRefX", tla.lit(set(refx))),
+            ("MCRefY", tla.lit(set(refy))), ("MCEdits", tla.lit(set(edits))), ("MCEditVia", tla.lit(set(editvia))),
+            'Emit == (Len(hist) = MaxHist) => PrintT(<<"S", ToJson(HoldersReport)>>)']
+    return tla.module("MCParityHolders", ["ParityHolders", "Json"], defs)
+
+
+def count_holder_histories(configs, widths, heights, hdrs, refx, refy, maxhist, edits=(), editvia=()):
+    per_size = len(widths) * len(hdrs) * len(refx) * sum(len({a + b * h for a, b in refy}) for h in heights)
+    return per_size * sum((2 * len(k) + len([v for v in editvia if v <= len(k)]) * len(edits)) ** maxhist for k, sh in set((tuple(k), tuple(sh)) for k, sh in configs))
+
+
 # ------------------------------------------------------------------------------------------------
 # replay of one TLC case into the real code (pool worker)
 # ------------------------------------------------------------------------------------------------
@@ -181,7 +221,7 @@ def replay_case(args):
     from PIL import Image as PilImage
     from toasty.image import Image, ImageDescription, ImageLoader, ImageMode
     o = rec["orig"]
-    kind, w, h = o["kind"], o["w"], o["h"]
+    kind, w, h = o.get("kind", "holders"), o["w"], o["h"]           # "holders": several objects around one WCS object
     cdelt, pc, p = o["cdelt"], o["pc"], o["p"]
     crval, lonpole, latpole = FRAMES[idx % len(FRAMES)]
     SCALE = SCALES[(idx // len(FRAMES)) % len(SCALES)]
@@ -199,7 +239,7 @@ def replay_case(args):
         backing, touch = "none", "nothing"
     cls = "ImageDescription" if kind == "desc" else "Image"
     case = {"kind": cls, "width": w, "height": h, "CDELT": [c * SCALE for c in cdelt] if tuple(cdelt) != (1, 1) else [1, 1],
-            "PC": pc if tuple(cdelt) != (1, 1) else None, "CD": [v * SCALE for v in rec["start"]["cd"]],
+            "PC": pc if tuple(cdelt) != (1, 1) else None, "CD": [v * SCALE for v in (rec["start"][0] if kind == "holders" else rec["start"])["cd"]],
             "CRPIX": [p[0] / 2.0, p[1] / 2.0], "CRVAL": list(crval), "LONPOLE": lonpole, "LATPOLE": latpole,
             "deg_per_unit": SCALE, "data": backing, "before_the_call": touch,
             "wcs_records_grid": None if not o.get("nax") else [w + o["nax"] - h, o["nax"]],
@@ -249,8 +289,7 @@ def replay_case(args):
         wcs.wcs.set()
         return record_grid(wcs)
 
-    def build():
-        wcs = make_wcs()
+    def make_object(backing, wcs):
         if backing == "array-F32":
             obj = Image.from_array(base.astype(np.float32), wcs=wcs)
         elif backing == "array-RGB":
@@ -268,7 +307,13 @@ def replay_case(args):
             obj = ImageLoader().load_path(os.path.join(scratch, "bitmap_%dx%d.png" % (w, h)))
             obj._wcs = wcs
         else:
-            return ImageDescription(mode=ImageMode.F32, shape=(h, w), wcs=wcs), None
+            obj = ImageDescription(mode=ImageMode.F32, shape=(h, w), wcs=wcs)
+        return obj
+
+    def build():
+        obj = make_object(backing, make_wcs())
+        if backing == "none":
+            return obj, None
         if touch == "asarray":
             obj.asarray()
         elif touch == "dtype":
@@ -279,11 +324,11 @@ def replay_case(args):
             obj.shape, obj.height, obj.width
         return obj, base
 
-    def ident_of(a):
+    def ident_of(a, bk=None):
         a = np.asarray(a)
         if a.ndim == 2:
             return a.astype(int)
-        if backing == "loader-L":
+        if (bk or backing) == "loader-L":
             return a[..., 0].astype(int)
         return a[..., 0].astype(int) + 251 * a[..., 1].astype(int)
 
@@ -514,6 +559,161 @@ def replay_case(args):
                 break
         return res, ncalls
 
+    def replay_holders():
+        """ONE astropy WCS object held by several owners (spec/ParityHolders.tla): N Images / ImageDescriptions built with the
+        caller's WCS object w itself, a w.copy() (a shallow copy: same Wcsprm), or - where the spec gives a holder a cell of its
+        own - w.deepcopy() / w.sub() / w.celestial / a WCS built afresh; the caller keeps w.  The calls of rec["hist"] go to one
+        holder at a time (or edit, in place, the WCS object reached through a slot); after EVERY call EVERY holder is compared
+        with its specified state: the one that was called, and all the others, whose pixels must not have moved on the sky."""
+        nonlocal ncalls
+        kinds, share = o["kinds"], o["share"]
+        n = len(kinds)
+        slots = range(n + 1)
+        w0 = make_wcs()                                   # the caller's object
+        masters, names = {share[0]: w0}, {share[0]: "w"}
+        derive = ["deepcopy", "sub", "celestial", "fresh"]
+        for g in sorted(set(share)):
+            if g in masters:
+                continue
+            d = derive[(idx + g) % len(derive)]
+            masters[g] = w0.deepcopy() if d == "deepcopy" else w0.sub([1, 2]) if d == "sub" else w0.celestial if d == "celestial" else make_wcs()
+            names[g] = {"deepcopy": "w.deepcopy()", "sub": "w.sub([1, 2])", "celestial": "w.celestial", "fresh": "a WCS built afresh"}[d]
+        wobjs, backs, objs, texts, clss = [w0], ["none"], [None], ["the caller keeps w"], [None]
+        members = {share[0]: 1}
+        for j in range(1, n + 1):
+            g = share[j]
+            k = members.get(g, 0)
+            members[g] = k + 1
+            if k == 0 or (idx + j + k) % 2:
+                wj, txt = masters[g], names[g] if k == 0 or g == share[0] else "the same object as the first holder of %s" % names[g]
+            else:
+                wj, txt = masters[g].copy(), ("w.copy()" if g == share[0] else "a .copy() of the object of the first holder of %s" % names[g])
+            bk = ("array-RGB" if (idx + j) % 2 else "array-F32") if kinds[j - 1] == "image" else \
+                BACKINGS[(idx + j) % len(BACKINGS)] if kinds[j - 1] == "pil" else "none"
+            wobjs.append(wj)
+            backs.append(bk)
+            objs.append(make_object(bk, wj))
+            clss.append("ImageDescription" if bk == "none" else "Image")
+            texts.append("%d: %s(%s, wcs=%s)" % (j, clss[j], bk if bk != "none" else "no data", txt))
+        case["kind"] = "%d holders {%s; %s}" % (n, "; ".join(texts[1:]), texts[0])
+        case["holders"], case["data"] = texts, backs[1:]
+        for a in slots:
+            for b in slots:
+                if (wobjs[a].wcs is wobjs[b].wcs) != (share[a] == share[b]):
+                    return [("M", "build", "astropy shares the WCS parameters of slots %d and %d otherwise than the spec says: %r" % (a, b, case), case)], 0
+
+        def look(s):
+            wcs = w0 if s == 0 else objs[s].wcs
+            ob = {"sign": None, "sky": wcs.wcs_pix2world(pix, 0), "img": wcs.wcs.p2s(pix + 1.0, 1)["imgcrd"], "ident": None, "ident_pil": None}
+            if s:
+                ob["sign"] = objs[s].get_parity_sign()
+                if backs[s] != "none":
+                    ob["ident"] = ident_of(objs[s].asarray(), backs[s])
+                    if backs[s] != "array-F32":
+                        ob["ident_pil"] = ident_of(objs[s].aspil(), backs[s])
+            return ob
+
+        def table_ok(ob, table):
+            return np.allclose(ob["img"], np.array(table, dtype=float).reshape(h * w, 2) * (SCALE / 2.0), rtol=1e-9, atol=1e-10 * SCALE)
+
+        def deviates(s, ob, snap, table):
+            """None, or (what, text): how the real object in slot s differs from the specified one"""
+            if s and ob["sign"] != snap["sign"]:
+                return "sign", "parity sign %+d, specified %+d" % (ob["sign"], snap["sign"])
+            if ob["ident"] is not None:
+                exp = np.array([[r * w + x for x in range(w)] for r in snap["rows"]])
+                if ob["ident"].shape != exp.shape or not bool((ob["ident"] == exp).all()):
+                    return "rows", "its stored rows are %s (original row numbers), specified %s" % (
+                        stored_rows(ob["ident"]) if ob["ident"].shape == (h, w) else ob["ident"].shape, snap["rows"])
+                if ob["ident_pil"] is not None and (ob["ident_pil"].shape != exp.shape or not bool((ob["ident_pil"] == exp).all())):
+                    return "rows-aspil", "aspil() shows rows %s, specified %s" % (
+                        stored_rows(ob["ident_pil"]) if ob["ident_pil"].shape[:2] == (h, w) else ob["ident_pil"].shape, snap["rows"])
+                pos0 = {r: k for k, r in enumerate(ref_rows[s])}
+                src = np.array([pos0[r] * w + x for r in snap["rows"] for x in range(w)])
+            else:
+                src = mirror_src if snap["cd"] != ref_cd[s] else np.arange(h * w)
+            sep = float(_sep_deg(ob["sky"], ref_ob[s]["sky"][src]).max())
+            if not sep <= TOL_DEG:
+                return "sky", "its pixels moved on the sky by up to %.3g deg" % sep
+            if not table_ok(ob, table):
+                return "sky", "its linear WCS stage differs from the specified world table"
+            return None
+
+        mirror_src = np.array([(h - 1 - y) * w + x for y in range(h) for x in range(w)])
+        ref_ob = [look(s) for s in slots]                  # the reference picture of every slot: the start, or the last edit it saw
+        ref_rows = [list(rec["start"][s]["rows"]) for s in slots]
+        ref_cd = [rec["start"][s]["cd"] for s in slots]
+        for s in slots:
+            if not table_ok(ref_ob[s], rec["world"]) or float(_sep_deg(ref_ob[s]["sky"], ref_ob[0]["sky"]).max()) > TOL_DEG:
+                return [("M", "build", "slot %d does not start with the spec's linear stage / the caller's sky: %r" % (s, case), case)], 0
+            if s and ref_ob[s]["sign"] != rec["start"][s]["sign"]:
+                res.append(("V", "%s.get_parity_sign:convention" % clss[s],
+                            "%s.get_parity_sign() = %r for a CD determinant of %g (documented: negative determinant -> +1, positive -> -1)"
+                            % (clss[s], ref_ob[s]["sign"], rec["start"][s]["det"] * SCALE * SCALE), case))
+                return res, ncalls
+        done = []
+        for ent, step in zip(rec["hist"], rec["trace"]):
+            act, on = ent["op"], ent["on"]
+            if act in EDITS:
+                # the client edits, IN PLACE, the WCS object it reaches through slot `on` (its own w, or holder.wcs)
+                wobj = w0 if on == 0 else objs[on].wcs
+                snap = step["snaps"][on]
+                if wobj.wcs.has_cd():
+                    wobj.wcs.cd = np.array(snap["cd"], dtype=float).reshape(2, 2) * SCALE
+                else:
+                    wobj.wcs.cdelt = [SCALE, SCALE]
+                    wobj.wcs.pc = np.array(snap["cd"], dtype=float).reshape(2, 2)
+                wobj.wcs.set()
+                done.append("%s edited in place (%s)" % ("the caller's w" if on == 0 else "holder %d's .wcs" % on, EDITS[act]))
+                hist_txt = " [%s; calls so far: %s]" % (case["kind"], ", ".join(done))
+                stop = False
+                for s in slots:
+                    ob = look(s)
+                    if not table_ok(ob, step["worlds"][s]):
+                        res.append(("D", "edit", "after an in-place edit slot %d does not have the linear stage the spec gives it (which objects share "
+                                    "WCS parameters differs from the spec)%s" % (s, hist_txt), case))
+                        stop = True
+                    elif s and ob["sign"] != step["snaps"][s]["sign"]:
+                        res.append(("V", "%s.get_parity_sign:convention" % clss[s],
+                                    "%s.get_parity_sign() = %+d for a CD determinant of %g after the WCS object was edited in place%s"
+                                    % (clss[s], ob["sign"], step["snaps"][s]["det"] * SCALE * SCALE, hist_txt), case))
+                        stop = True
+                    if s in step["reset"]:
+                        ref_ob[s], ref_rows[s], ref_cd[s] = ob, list(step["snaps"][s]["rows"]), step["snaps"][s]["cd"]
+                if stop:
+                    break
+                continue
+            op = "flip_parity" if act == "flip" else "ensure_negative_parity"
+            getattr(objs[on], op)()
+            ncalls += 1
+            done.append("holder %d.%s()" % (on, op))
+            hist_txt = " [%s; calls so far: %s]" % (case["kind"], ", ".join(done))
+            stop = False
+            for s in slots:
+                dev = deviates(s, look(s), step["snaps"][s], step["worlds"][s])
+                if dev is None:
+                    continue
+                stop = True
+                if s == on:
+                    what = dev[0] if not (op == "ensure_negative_parity" and dev[0] == "rows") else "sky"
+                    res.append(("V", "%s.%s:%s" % (clss[on], op, what), "after %s: %s%s" % (done[-1], dev[1], hist_txt), case))
+                elif s == 0:
+                    # nobody's pixels are described by the caller's own object alone: a sentence fails only through a holder
+                    res.append(("D", "%s.%s:caller-wcs" % (clss[on], op), "%s wrote the WCS object the caller passed in: %s%s" % (done[-1], dev[1], hist_txt), case))
+                else:
+                    res.append(("V", "%s.%s:bystander" % (clss[on], op), "%s changed holder %d (%s), which was not called: %s%s"
+                                % (done[-1], s, clss[s], dev[1], hist_txt), case))
+            if stop:
+                break                 # the objects have left the specified path
+        return res, ncalls
+
+    if "kinds" in o:
+        try:
+            return replay_holders()
+        except Exception as e:  # noqa
+            import traceback
+            bad("V", "flip_parity", "raises", "parity operations raised %r in shared-WCS history %s (%s)" % (e, rec["hist"], traceback.format_exc().splitlines()[-3].strip()))
+            return res, ncalls
     if "hist" in rec and o.get("peer", "none") != "none":
         try:
             return replay_shared()
@@ -677,11 +877,28 @@ def run(ctx):
         edits = sorted(EDITS) if nact >= 5 else []
         jobs_tlc.append(("H", mc_module(kinds, ws, hs, hd, refx[:1], ry, H2, recy, peers, edits), H2,
                          count_cases(kinds, ws, hs, hd, refx[:1], ry, len(recy), len(peers)) * nact ** H2, "call histories"))
+    # ---- ONE WCS object held by several owners (spec/ParityHolders.tla): holders x which of them (and the caller) share WCS
+    # parameters x every call history over {flip(i), ensure(i)} (x in-place edits through a slot's WCS object)
+    two = [("image", "desc"), ("pil", "image")] if ctx.quick else [("image", "desc"), ("pil", "image"), ("desc", "desc"), ("image", "image")]
+    share2 = [(1, 1, 1), (1, 1, 2), (1, 2, 2)] + ([] if ctx.quick else [(1, 2, 1), (1, 2, 3)])   # (caller, holder 1, holder 2) -> WCS cell
+    three = [("image", "image", "image"), ("image", "desc", "pil")]           # three colour planes; an image, its description, a bitmap
+    share3 = [(1, 1, 1, 1), (1, 1, 1, 2), (1, 2, 2, 2)] + ([] if ctx.quick else [(1, 1, 2, 2), (1, 2, 1, 2), (1, 2, 3, 3), (1, 2, 3, 4)])
+    hd_hold = [hh[2], hh[5]] if ctx.quick else hh[::2] + hh[5:6]               # PC+CDELT positive parity; rotated CD negative parity
+    holder_runs = [([(k, sh) for k in two for sh in share2], hd_hold, 3 if ctx.quick else 4, ["cdsign"] if ctx.quick else sorted(EDITS), [0] if ctx.quick else [0, 1]),
+                   ([(k, sh) for k in three for sh in share3], hd_hold, 2 if ctx.quick else 3, [] if ctx.quick else ["rowswap"], [2])]
+    for configs, hd, mh, edits, via in holder_runs:
+        a = (configs, widths[-1:], heights[-1:], hd, refx[:1], refy[:1], mh, edits, via)
+        jobs_tlc.append(("S", mc_holders(*a), mh, count_holder_histories(*a), "shared-WCS call histories"))
+    if os.environ.get("C16_ONLY"):
+        jobs_tlc = [j for j in jobs_tlc if j[0] in os.environ["C16_ONLY"]]
     from concurrent.futures import ThreadPoolExecutor
 
     def run_tlc(job):
         tag, text, mh, n_expected, what = job
-        r = ctx.tlc("MCParity", extra={"MCParity.tla": text}, cfg_text=CFG % mh, workers=3, timeout=3000)
+        if tag == "S":
+            r = ctx.tlc("MCParityHolders", extra={"MCParityHolders.tla": text}, cfg_text=CFG_HOLDERS % mh, workers=3, timeout=3000)
+        else:
+            r = ctx.tlc("MCParity", extra={"MCParity.tla": text}, cfg_text=CFG % mh, workers=3, timeout=3000)
         got = r.json_lines(tag)
         if len(got) != n_expected:
             ctx.machinery("TLC emitted %d %s, expected %d" % (len(got), what, n_expected))
@@ -692,6 +909,10 @@ def run(ctx):
     hist_recs = [x for tag, got in outs if tag == "H" for x in got]
     hist_recs.sort(key=lambda q: (q["orig"]["kind"], q["orig"]["w"], q["orig"]["h"], q["orig"]["cdelt"], q["orig"]["pc"], q["orig"]["p"], q["orig"]["nax"], q["orig"]["peer"], q["hist"]))
     ctx.note("call_histories", len(hist_recs))
+    hold_recs = [x for tag, got in outs if tag == "S" for x in got]
+    hold_recs.sort(key=lambda q: (q["orig"]["kinds"], q["orig"]["share"], q["orig"]["w"], q["orig"]["h"], q["orig"]["cdelt"], q["orig"]["pc"], q["orig"]["p"],
+                                  [(e["op"], e["on"]) for e in q["hist"]]))
+    ctx.note("shared_wcs_call_histories", len(hold_recs))
     recs.sort(key=lambda q: (q["orig"]["kind"], q["orig"]["w"], q["orig"]["h"], q["orig"]["cdelt"], q["orig"]["pc"], q["orig"]["p"]))
     # png files for the ImageLoader-backed objects (one per size; written before the pool starts)
     import numpy as np
@@ -702,7 +923,7 @@ def run(ctx):
             b = np.arange(h * w).reshape(h, w)
             arr = np.stack([b % 251, b // 251, np.full_like(b, 7)], axis=2).astype(np.uint8)
             PilImage.fromarray(arr).save(os.path.join(bdir, "bitmap_%dx%d.png" % (w, h)))
-    jobs = [(i, rec, bdir) for i, rec in enumerate(recs)] + [(i, rec, bdir) for i, rec in enumerate(hist_recs)]
+    jobs = [(i, rec, bdir) for i, rec in enumerate(recs)] + [(i, rec, bdir) for i, rec in enumerate(hist_recs)] + [(i, rec, bdir) for i, rec in enumerate(hold_recs)]
     with mp.Pool(8) as pool:
         results = pool.map(replay_case, jobs, chunksize=32)
     combos = set()
@@ -710,13 +931,16 @@ def run(ctx):
         if rec["orig"]["kind"] == "pil" and rec["orig"]["h"] > 1:
             combos.add((BACKINGS[i % len(BACKINGS)], TOUCHES[(i // len(BACKINGS)) % len(TOUCHES)], rec["start"]["sign"]))
     ctx.note("pil_backing_x_pretouch_x_startsign_combinations_with_h_gt_1", len(combos))
-    if len(combos) != len(BACKINGS) * len(TOUCHES) * 2:
+    if len(combos) != len(BACKINGS) * len(TOUCHES) * 2 and not os.environ.get("C16_ONLY"):
         ctx.machinery("only %d of %d (backing, pre-touch, starting sign) combinations were exercised" % (len(combos), len(BACKINGS) * len(TOUCHES) * 2))
-    for (res, ncalls), rec in zip(results, recs + hist_recs):
+    for (res, ncalls), rec in zip(results, recs + hist_recs + hold_recs):
         ctx.count(ncalls)
         ctx.trace_ok()
         o = rec["orig"]
-        ctx.distinct((o["kind"], o["w"], o["h"], tuple(o["cdelt"]), tuple(o["pc"]), tuple(o["p"]), o.get("nax", 0), o.get("peer", "none"), tuple(rec.get("hist", ()))))
+        if "kinds" in o:
+            ctx.distinct((tuple(o["kinds"]), tuple(o["share"]), o["w"], o["h"], tuple(o["cdelt"]), tuple(o["pc"]), tuple(o["p"]), tuple((e["op"], e["on"]) for e in rec["hist"])))
+        else:
+            ctx.distinct((o["kind"], o["w"], o["h"], tuple(o["cdelt"]), tuple(o["pc"]), tuple(o["p"]), o.get("nax", 0), o.get("peer", "none"), tuple(rec.get("hist", ()))))
         for sev, key, msg, case in res:
             if sev == "V":
                 ctx.violation("C16:" + key, "%s [%s %dx%d, CD=%s, CRPIX=%s, CRVAL=%s, LONPOLE=%s, LATPOLE=%s]" % (msg, case["kind"], case["height"], case["width"], case["CD"], case["CRPIX"], case["CRVAL"], case["LONPOLE"], case["LATPOLE"]),
@@ -731,6 +955,9 @@ def run(ctx):
     for rec in hist_recs[:: max(1, len(hist_recs) // 2)][:2]:
         ctx.sample({"case": rec["orig"], "calls": rec["hist"], "specified_sign_after_each_call": [t["snap"]["sign"] for t in rec["trace"]],
                     "specified_rows_after_each_call": [t["snap"]["rows"] for t in rec["trace"]]}, force=True)
+    for rec in hold_recs[len(hold_recs) // 3:: max(1, len(hold_recs))][:1]:
+        ctx.sample({"case": rec["orig"], "calls": rec["hist"], "specified_sign_of_every_slot_after_each_call": [[q["sign"] for q in t["snaps"]] for t in rec["trace"]],
+                    "specified_rows_of_every_slot_after_each_call": [[q["rows"] for q in t["snaps"]] for t in rec["trace"]]}, force=True)
     ctx.exhaustive = False
     ctx.note("cases", len(recs))
     ctx.note("headers", len(hdrs))
